@@ -307,10 +307,27 @@ func (p *c07) build(seed uint64, tier string) []C07Scenario {
 
 func (p *c07) Gen(seed uint64, i int, tier string) (any, bool) {
 	l := p.build(seed, tier)
-	if i >= len(l) {
+	// thorough: after the plain enumeration five more rounds of it in which everything the
+	// enumeration leaves open about the Client is drawn afresh (debug logging, DSN, the NOOP probe,
+	// the HELO name) and the run gets another schedule: none of that may matter to the policy
+	rounds := 1
+	if tier == "thorough" {
+		rounds = 6
+	}
+	if len(l) == 0 || i >= len(l)*rounds {
 		return nil, false
 	}
-	s := l[i]
+	s := l[i%len(l)]
+	if r := i / len(l); r > 0 {
+		s.Server.Caps = append([]string(nil), s.Server.Caps...)
+		helo := s.Client.HELO
+		Swarm(sim.NewRand(sim.Derive(seed, 7, 555, uint64(i))), &s.Client, &s.Server.Caps)
+		if helo != "" {
+			s.Client.HELO = helo // part of the scenario (the name the wrong certificate is valid for)
+		}
+		s.Sched = sim.Derive(seed, 7, 556, uint64(i))
+		s.Label += fmt.Sprintf("|round=%d", r)
+	}
 	return &s, true
 }
 
